@@ -1678,6 +1678,7 @@ func (c *DnsController) __updateDnsCacheDeadline(cacheKey string, host string, d
 
 	// Store atomically - concurrent writes don't block each other
 	newCache.RouteOwnerKey = cacheKey
+	newCache.lastAccessNano.Store(now.UnixNano())
 	c.dnsCache.Store(cacheKey, newCache)
 	c.rememberDnsKnowledge(baseKey, originalDeadline)
 
